@@ -295,12 +295,14 @@ class MassMatrixAdaptor(Adaptor):
     def load_state_dict(self, state_dict: dict[str, Any]) -> None:
         self._call_counter = state_dict["call_counter"]
         self.variance_estimator.samples = state_dict["samples"]
-        info = {
-            "dtype": self.variance_estimator._mean.dtype,
-            "device": self.variance_estimator._mean.device,
-        }
-        self.variance_estimator._mean = torch.tensor(state_dict["mean"], **info)
-        self.variance_estimator._variance = torch.tensor(state_dict["variance"], **info)
+        mean = self.variance_estimator._mean
+        variance = self.variance_estimator._variance
+        self.variance_estimator._mean = torch.tensor(
+            state_dict["mean"], dtype=mean.dtype, device=mean.device
+        )
+        self.variance_estimator._variance = torch.tensor(
+            state_dict["variance"], dtype=variance.dtype, device=variance.device
+        )
 
     @classmethod
     def from_json(cls, data, dic):
